@@ -58,7 +58,8 @@ class World:
     that log what they see and then do what `plan(kind, fn, idx)` says"""
 
     def __init__(self, states, maxloops, plan, new=None):
-        """new = {'s': first state | 'none', 'kw': {...}}: arguments of the constructor;
+        """new = {'s': first state | 'none', 'kw': {...}, 'hook': transition callback given?, 'c': 'K' | 'none'
+        (cleanup=<function> given?)}: arguments of the constructor;
         maxloops=None: keep the machine's default (10)"""
         boot()
         import frappy.lib.statemachine as m
@@ -68,12 +69,18 @@ class World:
         self.count = {}
         self.funcs = {s: self._state(s) for s in states}
         self.cleanup = self._cleanup()
-        new = new or {'s': 'none', 'kw': {}}
+        new = dict({'s': 'none', 'kw': {}, 'hook': True, 'c': 'none'}, **(new or {}))
         kw = {k: v for k, v in new['kw'].items() if v != '-'}
-        self.sm = m.StateMachine(self.funcs.get(new['s']), logger=LoggerStub(), transition=self._hook, **kw)
+        opt = dict(kw)
+        if new['hook']:
+            opt['transition'] = self._hook        # else: a machine without transition callback (the default)
+        if new['c'] != 'none':
+            opt['cleanup'] = self.cleanup
+        self.sm = m.StateMachine(self.funcs.get(new['s']), logger=LoggerStub(), **opt)
         if maxloops is not None:
             self.sm.maxloops = maxloops
-        self.events.append({'ev': 'new', 's': new['s'], 'kw': {k: str(kw.get(k, '-')) for k in KEYS}})
+        self.events.append({'ev': 'new', 's': new['s'], 'kw': {k: str(kw.get(k, '-')) for k in KEYS},
+                            'hook': bool(new['hook']), 'c': new['c']})
 
     # -- closures
     def _next(self, kind, fn):
@@ -327,9 +334,9 @@ def _variant(i):
 def _random_trace(arg):
     seed, nops, (maxloops, chain, bad) = arg
     rnd = random.Random(seed)
-    new = None
+    new = {'hook': rnd.random() < 0.6, 'c': rnd.choice(['none', 'none', 'K'])}   # optional callbacks
     if rnd.random() < 0.4:     # constructor with attributes and / or a first state
-        new = {'s': rnd.choice(T_START + ['none']), 'kw': {k: rnd.choice('123') for k in KEYS if rnd.random() < 0.5}}
+        new.update(s=rnd.choice(T_START + ['none']), kw={k: rnd.choice('123') for k in KEYS if rnd.random() < 0.5})
     w = World(T_STATES, maxloops, _rand_plan(seed, True, chain), new)
     badpos = rnd.randrange(nops) if bad else -1
     for n in range(nops):
@@ -485,7 +492,7 @@ def _conc_scenario(seed):
         n = None
         while True:
             rnd = random.Random(seed)
-            w = World(T_STATES, T_MAXLOOPS, _rand_plan(seed, False))
+            w = World(T_STATES, T_MAXLOOPS, _rand_plan(seed, False), {'hook': seed % 3 != 0})
             w.post(task_start(rnd.choice(T_START), {'x': '1'}, rnd.choice(['K', 'K', 'none'])))
             for _ in range(nprefix):
                 if rnd.random() < 0.7:
